@@ -7,7 +7,7 @@ _D = "stable_baselines3/common/vec_env/dummy_vec_env.py"
 _B = [("terminated", "bool"), ("truncated", "bool")]
 SPECS = [
     dict(
-        name="onp_boot_cond", qual=_Q, start=r"^if done and ", end=None, kind="test",
+        name="onp_boot_cond", qual=_Q, start=r"^if done\b", end=None, kind="test",
         inputs=[("done", "bool"), ("has_terminal_obs", "bool"), ("timelimit", "bool")],
         subst={"infos[idx].get('terminal_observation') is not None": "has_terminal_obs",
                "infos[idx].get('TimeLimit.truncated', False)": "timelimit"},
